@@ -97,6 +97,7 @@ type result struct {
 	Program  json.RawMessage `json:"program"`
 	Tape     []int           `json:"tape"`
 	TapeSeed int64           `json:"tape_seed"`
+	TapeFork int64           `json:"tape_fork"`
 	Viols    []violation     `json:"violations"`
 	Stats    json.RawMessage `json:"stats"`
 	HistText []string        `json:"history"`
@@ -491,7 +492,7 @@ func check(prop string, spec propSpec, tier string, seed int64, scratch string) 
 		reproduced := false
 		var lastOut string
 		for ci, cand := range cands {
-			rf := map[string]any{"property": prop, "signature": g.sig, "violation": g.viol.Text, "seed": cand.Seed, "program": cand.Program, "tape": cand.Tape, "tape_seed": cand.TapeSeed, "history": cand.HistText, "tree_hash": th}
+			rf := map[string]any{"property": prop, "signature": g.sig, "violation": g.viol.Text, "seed": cand.Seed, "program": cand.Program, "tape": cand.Tape, "tape_seed": cand.TapeSeed, "tape_fork": cand.TapeFork, "history": cand.HistText, "tree_hash": th}
 			b, _ := json.MarshalIndent(rf, "", " ")
 			raw := filepath.Join(scratch, fmt.Sprintf("raw%d_%d.json", gi, ci))
 			os.WriteFile(raw, b, 0o644)
